@@ -1,7 +1,7 @@
 #!/bin/sh
 # runs every claimed check's command of the given tier (default quick) sequentially; prints one summary line each
 tier=${1:-quick}
-cd /verif
+cd "$(dirname "$0")/.."
 for id in $(/venv/bin/python -c "import json;print(' '.join(c['property_id'] for c in json.load(open('MANIFEST.json'))['checks']))"); do
   s=$(date +%s)
   out=$(./check $id $tier 2>&1); rc=$?
